@@ -5,6 +5,7 @@ import (
 	"go/constant"
 	"go/token"
 	"go/types"
+	"os"
 	"sort"
 	"strings"
 
@@ -630,6 +631,9 @@ func c08(cx *Ctx, r *ev.Report) {
 	ruleA := "RUN-ITERATION: one iteration of Run's loop (summarised by value: helpers in line, Step opaque and havocking the CPU) Steps unless it returns the context's error - a decision independent of CPU state -, then returns ErrBreakPoint iff the Step left PC in BreakPoints, else nil iff the Step executed HALT, else continues; the CPU is touched by Step only and HALT is cleared once before the loop.  Fallback when the summary is undecided: R-AUTOMATON(Run), inclusion of the CFG projected on {H0, C?, Step, B?, H?, return} in  H0 (C?f S B?f H?f)* ( C?t Rctx | C?f S B?t Rbp | C?f S B?f H?t Rnil )"
 	sem := cx.runSem()
 	semantic := sem.err == nil
+	if os.Getenv("VERIF_DEBUG") != "" {
+		fmt.Fprintln(os.Stderr, "run summary:", sem.err, sem.violations)
+	}
 	r.Analysed["run_decided_by"] = map[bool]string{true: "value summary of the loop iteration", false: "CFG automaton (summary undecided: " + fmt.Sprint(sem.err) + ")"}[semantic]
 	switch {
 	case semantic && len(sem.violations) > 0:
